@@ -311,6 +311,42 @@ func ruleC20PanicError(e *Env) {
 }
 
 func hasRecoverDefer(fn *ssa.Function) bool {
+	// one deferred closure recovers: a second one (registered later, run first) takes the panic away from the one
+	// that turns it into the error
+	nrecDefers := 0
+	for _, b := range fn.Blocks {
+		for _, in := range b.Instrs {
+			if d, ok := in.(*ssa.Defer); ok {
+				if mc, ok := d.Call.Value.(*ssa.MakeClosure); ok {
+					for _, cb := range mc.Fn.(*ssa.Function).Blocks {
+						for _, cin := range cb.Instrs {
+							if call, ok := cin.(*ssa.Call); ok {
+								if bi, ok := call.Call.Value.(*ssa.Builtin); ok && bi.Name() == "recover" {
+									nrecDefers++
+								}
+							}
+						}
+					}
+				} else if d.Call.StaticCallee() != nil || d.Call.IsInvoke() {
+					// a deferred named function may recover as well: not read
+					if f := d.Call.StaticCallee(); f != nil && flow.InRepo(f) {
+						for _, cb := range f.Blocks {
+							for _, cin := range cb.Instrs {
+								if call, ok := cin.(*ssa.Call); ok {
+									if bi, ok := call.Call.Value.(*ssa.Builtin); ok && bi.Name() == "recover" {
+										nrecDefers++
+									}
+								}
+							}
+						}
+					}
+				}
+			}
+		}
+	}
+	if nrecDefers != 1 {
+		return false
+	}
 	for _, b := range fn.Blocks {
 		for _, in := range b.Instrs {
 			d, ok := in.(*ssa.Defer)
@@ -2279,8 +2315,10 @@ func probeIfaceHas(e *Env, cond ssa.Value, method string) bool {
 		break
 	}
 	has := func(t types.Type) bool {
+		// the helper's method and nothing else: an interface that embeds it and demands a second method fails types
+		// that have the helper's interface
 		it, ok := t.Underlying().(*types.Interface)
-		return ok && ifaceHasMethod(it, method)
+		return ok && ifaceHasMethod(it, method) && it.NumMethods() == 1
 	}
 	castHas := func(v ssa.Value) bool {
 		c, ok := v.(*ssa.Call)
